@@ -190,7 +190,7 @@ theorem visitKids_ok (vl : List Node → Except Err LRes) (g : List Node → Lis
 
 theorem descend_ok (cfg : Cfg) (vl : List Node → Except Err LRes) (o : Node) (ks' : List (List Node))
     (h : ∃ ls, visitKidsWith vl o.kids = .ok ls ∧ ls.map (·.res) = ks') :
-    ∃ r, descendWith cfg vl o = .ok r ∧ r.res = some (.mk o.kind o.lbl (rebuildKids o.kind ks')) := by
+    ∃ r, descendWith cfg vl o = .ok r ∧ r.res = some (.mk o.kind o.lbl ks') := by
   obtain ⟨ls, hls, hm⟩ := h
   simp only [descendWith, hls]
   exact ⟨_, rfl, by simp [hm]⟩
@@ -250,37 +250,11 @@ theorem fixedLL_mem {m : Mapper} {ks : List (List Node)} {b : List Node} (hk : f
     · subst e; exact hk.1
     · exact ih hk.2 e
 
-theorem safeL_mem {m : Mapper} {b : List Node} {x : Node} (hb : safeL m b = true) (h : x ∈ b) : safeN m x = true := by
-  induction b with
-  | nil => simp at h
-  | cons c cs ih =>
-    simp only [safeL, Bool.and_eq_true] at hb
-    rcases List.mem_cons.mp h with e | e
-    · subst e; exact hb.1
-    · exact ih hb.2 e
-
-theorem safeLL_mem {m : Mapper} {ks : List (List Node)} {b : List Node} (hk : safeLL m ks = true) (h : b ∈ ks) :
-    safeL m b = true := by
-  induction ks with
-  | nil => simp at h
-  | cons c cs ih =>
-    simp only [safeLL, Bool.and_eq_true] at hk
-    rcases List.mem_cons.mp h with e | e
-    · subst e; exact hk.1
-    · exact ih hk.2 e
-
 theorem fixedN_lookup {m : Mapper} {x : Node} (h : fixedN m x = true) : lookup m x = none := by
   cases x with
   | mk k l ks =>
     simp only [fixedN, Bool.and_eq_true, Option.isNone_iff_eq_none] at h
-    exact h.1.1
-
-theorem rebuildKids_of (k : Kind) (ks : List (List Node)) (h : (k != .mcond || dropEmptyBodies ks == ks) = true) :
-    rebuildKids k ks = ks := by
-  simp only [rebuildKids]
-  by_cases e : k = .mcond
-  · simp [e] at h; simp [e, h]
-  · simp [e]
+    exact h.1
 
 /-! ## a node that cannot change is returned unchanged (given enough fuel) -/
 
@@ -296,7 +270,7 @@ theorem visit_fixed (cfg : Cfg) (m : Mapper) :
     cases h with
     | mk k l ks =>
       simp only [fixedN, Bool.and_eq_true] at hfix
-      obtain ⟨⟨_, hmc⟩, hks⟩ := hfix
+      obtain ⟨_, hks⟩ := hfix
       rw [depth_mk] at hd
       have hkids : ∃ ls, visitKidsWith (visitListWith m (visitNode cfg m f)) ks = .ok ls ∧ ls.map (·.res) = ks.map id := by
         apply visitKids_ok
@@ -320,7 +294,6 @@ theorem visit_fixed (cfg : Cfg) (m : Mapper) :
       refine ⟨r, ?_, ?_⟩
       · simp only [visitNode, hl]; exact hr
       · rw [hres]; simp only [Node.kind, Node.lbl]
-        rw [rebuildKids_of k ks hmc]
 
 /-! ## the main refinement: the traversal computes the reference rebuild -/
 
@@ -366,9 +339,9 @@ theorem visit_descends (cfg : Cfg) (m : Mapper) (f : Nat) (o : Node) (h : Descen
 
 theorem list_step (cfg : Cfg) (m : Mapper) (D : Nat) (hd : KeysDistinct m)
     (hf : fixedL m (tupleElems m) = true) (hD : ∀ h ∈ tupleElems m, h.depth ≤ D) (f : Nat)
-    (ih : ∀ o : Node, o.depth + D ≤ f → safeN m o = true → Descends m o →
+    (ih : ∀ o : Node, o.depth + D ≤ f → Descends m o →
       ∃ r, visitNode cfg m f o = .ok r ∧ r.res = some (specKeep m o))
-    (b : List Node) (hsb : safeL m b = true) (hdb : depthL b + D ≤ f) :
+    (b : List Node) (hdb : depthL b + D ≤ f) :
     ∃ r, visitListWith m (visitNode cfg m f) b = .ok r ∧ r.res = specL m b := by
   have hn := elemsNotKeys_of_fixed hf
   -- every element of the injected tuple is visited successfully, with the expected contribution
@@ -376,14 +349,13 @@ theorem list_step (cfg : Cfg) (m : Mapper) (D : Nat) (hd : KeysDistinct m)
       (S m x).flatMap (F (visitNode cfg m f)) = specAt m x (specKeep m x) := by
     intro x hxb
     have hdx : x.depth + D ≤ f := by have := depthL_mem hxb; omega
-    have hsx := safeL_mem hsb hxb
     have hf1 : ∃ f', f = f' + 1 := by
       have := depth_pos x
       exact ⟨f - 1, by omega⟩
     obtain ⟨f', hf'⟩ := hf1
     cases hl : lookup m x with
     | none =>
-      obtain ⟨r, hr, hres⟩ := ih x hdx hsx (Or.inl hl)
+      obtain ⟨r, hr, hres⟩ := ih x hdx (Or.inl hl)
       constructor
       · intro y hy; simp [S, hl] at hy; subst hy; exact ⟨r, hr⟩
       · simp [S, hl, specAt, F, hr, hres]
@@ -403,7 +375,7 @@ theorem list_step (cfg : Cfg) (m : Mapper) (D : Nat) (hd : KeysDistinct m)
           intro y hy
           by_cases e : y = x
           · subst e
-            obtain ⟨r, hr, hres⟩ := ih y hdx hsx (Or.inr ⟨hs, hl, hy⟩)
+            obtain ⟨r, hr, hres⟩ := ih y hdx (Or.inr ⟨hs, hl, hy⟩)
             exact ⟨r, hr, by simp [hres]⟩
           · have hmem := mem_tupleElems hl hy e
             obtain ⟨r, hr, hres⟩ := visit_fixed cfg m f y (fixedL_mem hf hmem) (by have := hD y hmem; omega)
@@ -429,30 +401,26 @@ theorem list_step (cfg : Cfg) (m : Mapper) (D : Nat) (hd : KeysDistinct m)
 
 theorem visit_spec (cfg : Cfg) (m : Mapper) (D : Nat) (hd : KeysDistinct m)
     (hf : fixedL m (tupleElems m) = true) (hD : ∀ h ∈ tupleElems m, h.depth ≤ D) :
-    ∀ (f : Nat) (o : Node), o.depth + D ≤ f → safeN m o = true → Descends m o →
+    ∀ (f : Nat) (o : Node), o.depth + D ≤ f → Descends m o →
       ∃ r, visitNode cfg m f o = .ok r ∧ r.res = some (specKeep m o) := by
   intro f
   induction f with
   | zero => intro o hdep; have := depth_pos o; omega
   | succ f ih =>
-    intro o hdep hsafe hdesc
+    intro o hdep hdesc
     rw [visit_descends cfg m f o hdesc]
     cases o with
     | mk k l ks =>
-      simp only [safeN, Bool.and_eq_true] at hsafe
-      obtain ⟨hmc, hsks⟩ := hsafe
       rw [depth_mk] at hdep
       have hkids : ∃ ls, visitKidsWith (visitListWith m (visitNode cfg m f)) ks = .ok ls ∧
           ls.map (·.res) = ks.map (specL m) := by
         apply visitKids_ok
         intro b hb
-        exact list_step cfg m D hd hf hD f ih b (safeLL_mem hsks hb) (by have := depthLL_mem hb; omega)
+        exact list_step cfg m D hd hf hD f ih b (by have := depthLL_mem hb; omega)
       obtain ⟨r, hr, hres⟩ := descend_ok cfg (visitListWith m (visitNode cfg m f)) (.mk k l ks) _ hkids
       refine ⟨r, hr, ?_⟩
       rw [hres]
       simp only [Node.kind, Node.lbl, specKeep, specLL_eq]
-      rw [specLL_eq] at hmc
-      rw [rebuildKids_of k _ hmc]
 
 /-! ## the original tree is not touched when no visited object is updated in place -/
 
@@ -764,5 +732,133 @@ theorem visitList_cov (cfg : Cfg) (m : Mapper) (hd : KeysDistinct m) (f : Nat) (
     obtain ⟨ry, hry, hvy⟩ := visitEach_mem _ _ rs hve y hyin
     apply List.mem_flatMap.mpr
     exact ⟨ry, hry, visit_cov cfg m hd f y ry (fun z hz => hno z (nodesL_mem hy hz)) hvy n hny⟩
+
+/-! ## NestedTransformer -/
+
+theorem injectAll_no_tuples (m : Mapper) (h : ∀ p ∈ m, ∀ hs, p.2 ≠ Handle.tuple hs) (o : List Node) :
+    injectAll m o = o := by
+  induction m generalizing o with
+  | nil => rfl
+  | cons p m ih =>
+    simp only [injectAll, List.foldl_cons]
+    have : injectStep o p = o := by
+      obtain ⟨k, hd⟩ := p
+      cases hd with
+      | drop => rfl
+      | node n => rfl
+      | tuple hs => exact absurd rfl (h (k, .tuple hs) (by simp) hs)
+    rw [this]
+    exact ih (fun q hq => h q (by simp [hq])) o
+
+theorem nestedOK_mem {m : Mapper} (hk : KnownNested m = false) {k : Node} {h : Handle} (hm : (k, h) ∈ m) :
+    nestedOKPair k h = true := by
+  simp only [KnownNested, Bool.not_eq_false', List.all_eq_true] at hk
+  exact hk (k, h) hm
+
+theorem nested_list_step (m : Mapper) (hk : KnownNested m = false) (v : Node → Except Err VRes) (b : List Node)
+    (h : ∀ y ∈ b, ∃ r, v y = .ok r ∧ NSpecN m y r.res) :
+    ∃ r, nestedListWith m v b = .ok r ∧ NSpecL m b r.res := by
+  have hinj : ∀ l, injectAll m l = l := injectAll_no_tuples m (by
+    intro p hp hs e
+    have := nestedOK_mem hk (k := p.1) (h := p.2) hp
+    rw [e] at this
+    simp [nestedOKPair] at this)
+  have each : ∃ rs, visitEach v b = .ok rs ∧ NSpecL m b (rs.filterMap (·.res)) := by
+    induction b with
+    | nil => exact ⟨[], rfl, .nil⟩
+    | cons y ys ih =>
+      obtain ⟨r, hr, hs⟩ := h y (by simp)
+      obtain ⟨rs, hrs, hss⟩ := ih (fun z hz => h z (by simp [hz]))
+      refine ⟨r :: rs, by simp [visitEach, hr, hrs], ?_⟩
+      have : (r :: rs).filterMap (·.res) = r.res.toList ++ rs.filterMap (·.res) := by
+        cases hres : r.res <;> simp [List.filterMap_cons, hres]
+      rw [this]
+      exact .cons hs hss
+  obtain ⟨rs, hrs, hss⟩ := each
+  simp only [nestedListWith, hrs, hinj]
+  exact ⟨_, rfl, hss⟩
+
+theorem nested_kids_step (m : Mapper) (vl : List Node → Except Err LRes) (ks : List (List Node))
+    (h : ∀ b ∈ ks, ∃ r, vl b = .ok r ∧ NSpecL m b r.res) :
+    ∃ ls, visitKidsWith vl ks = .ok ls ∧ NSpecLL m ks (ls.map (·.res)) := by
+  induction ks with
+  | nil => exact ⟨[], rfl, .nil⟩
+  | cons b bs ih =>
+    obtain ⟨r, hr, hs⟩ := h b (by simp)
+    obtain ⟨ls, hls, hss⟩ := ih (fun c hc => h c (by simp [hc]))
+    exact ⟨r :: ls, by simp [visitKidsWith, hr, hls], by simpa using NSpecLL.cons hs hss⟩
+
+theorem nested_spec (cfg : Cfg) (m : Mapper) (hk : KnownNested m = false) :
+    ∀ (f : Nat) (x : Node), x.depth ≤ f → ∃ r, nestedNode cfg m f x = .ok r ∧ NSpecN m x r.res := by
+  intro f
+  induction f with
+  | zero => intro x hd; have := depth_pos x; omega
+  | succ f ih =>
+    intro x hd
+    cases x with
+    | mk k l ks =>
+      rw [depth_mk] at hd
+      have hkids : ∃ ls, visitKidsWith (nestedListWith m (nestedNode cfg m f)) ks = .ok ls ∧
+          NSpecLL m ks (ls.map (·.res)) := by
+        apply nested_kids_step
+        intro b hb
+        apply nested_list_step m hk
+        intro y hy
+        exact ih y (by have := depthLL_mem hb; have := depthL_mem hy; omega)
+      obtain ⟨ls, hls, hss⟩ := hkids
+      cases hl : lookup m (Node.mk k l ks) with
+      | none =>
+        simp only [nestedNode, hl, Node.kind, Node.kids, Node.lbl, hls, ne_eq, not_true_eq_false, if_false]
+        refine ⟨_, rfl, ?_⟩
+        have key := NSpecN.keep (x := Node.mk k l ks) hl hss
+        simp only [Node.kind, Node.lbl, Node.kids] at key
+        dsimp only
+        by_cases hp : k.payloadTraversable = true
+        · simp only [hp, if_true]; exact key
+        · simp only [hp, if_false]; exact key
+      | some hd' =>
+        have hok := nestedOK_mem hk (lookup_mem hl)
+        cases hd' with
+        | drop => simp only [nestedNode, hl]; exact ⟨_, rfl, NSpecN.drop hl⟩
+        | tuple hs => simp [nestedOKPair] at hok
+        | node h =>
+          obtain ⟨hk0, hl0, hks0⟩ := h
+          simp only [nestedOKPair, Bool.and_eq_true, beq_iff_eq, Bool.or_eq_true, Bool.not_eq_true',
+            Node.kind, Node.kids, Node.lbl] at hok
+          obtain ⟨⟨hkind, hkids'⟩, hlbl⟩ := hok
+          subst hkind; subst hkids'
+          simp only [nestedNode, hl, Node.kind, Node.kids, Node.lbl, hls, ne_eq, not_true_eq_false, if_false]
+          refine ⟨_, rfl, ?_⟩
+          have key := NSpecN.repl (h := Node.mk hk0 hl0 hks0) hl hss
+          simp only [Node.kind, Node.lbl, Node.kids] at key
+          dsimp only
+          rcases hlbl with e | e
+          · simp only [e, Bool.false_eq_true, if_false]; exact key
+          · subst e
+            by_cases hp : hk0.payloadTraversable = true
+            · simp only [hp, if_true]; exact key
+            · simp only [hp, if_false]; exact key
+
+theorem NSpecL_cons_inv {m : Mapper} {x : Node} {xs out : List Node} (h : NSpecL m (x :: xs) out) :
+    ∃ r rs, NSpecN m x r ∧ NSpecL m xs rs ∧ out = r.toList ++ rs := by
+  generalize hi : x :: xs = inp at h
+  cases h with
+  | nil => cases hi
+  | cons hn hrest => cases hi; exact ⟨_, _, hn, hrest, rfl⟩
+
+theorem NSpecL_nil_inv {m : Mapper} {out : List Node} (h : NSpecL m [] out) : out = [] := by
+  generalize hi : ([] : List Node) = inp at h
+  cases h with
+  | nil => rfl
+  | cons hn hrest => cases hi
+
+theorem NSpecN_inv {m : Mapper} {x : Node} {r : Option Node} (h : NSpecN m x r) :
+    (lookup m x = some .drop ∧ r = none)
+    ∨ (∃ h' ks', lookup m x = some (.node h') ∧ r = some (.mk h'.kind h'.lbl ks'))
+    ∨ (∃ ks', lookup m x = none ∧ r = some (.mk x.kind x.lbl ks')) := by
+  cases h with
+  | drop hd => exact Or.inl ⟨hd, rfl⟩
+  | repl hd _ => exact Or.inr (Or.inl ⟨_, _, hd, rfl⟩)
+  | keep hd _ => exact Or.inr (Or.inr ⟨_, hd, rfl⟩)
 
 end LokiModel.C14
